@@ -432,3 +432,45 @@ def measure_collapses_are_applied_in_order(ctx):
     """the constraint a measure collapse is turned into (impose_measure) applies, on every call, every position collapse first and every weight collapse after it, the weight collapse not nullable: impose_collapse moves the weight of the merged point onto the surviving one, so a weight collapse applied before it would be undone and points with a "collapsed" non-zero weight would reach the cost (reference summary shared with C19.g)"""
     from .c19 import impose_measure_applies_every_collapse
     impose_measure_applies_every_collapse(ctx)
+
+
+@rule('C11.k', min_instances=1)
+def collapse_only_while_nothing_else_stops_the_run(ctx):
+    """__get_collapses hands collapses on (so that they are applied, the mask grows and the solve CONTINUES) only when every part of the solver's stop message comes from a Collapse* condition - the parts of self.__stop__ / self.Terminated(info=True) split on '; ', not the keys of the collapses themselves (which are Collapse* by construction): with an ordinary stop on the same iteration the mask would grow and the constraints change while the solver stops at once, leaving a reported solution that does not satisfy the collapse it reports"""
+    f = ctx.func(AS + '.__get_collapses')
+    sn = selfname_of(f)
+    S = ('name', sn)
+    rts = return_terms(f.node)
+    ctx.need(len(rts) >= 2, '__get_collapses: expected >= 2 returning paths')
+    ctx.stats['paths_enumerated'] += len(rts)
+    COLL = None
+    n_pass = 0
+    bad = None
+    for p, tm, b, conds in rts:
+        if tm == ('call', ('name', 'dict'), (), ()) or tm == ('dict',):
+            continue
+        # a path that returns what Collapsed() reported
+        if not (tm[0] == 'call' and T.show(tm[1]).endswith('Collapsed')):
+            bad = (p, 'returns %s' % T.show(tm)[:60])
+            continue
+        truthy = any(c[0] == tm and c[1] is True for c in conds)
+        if not truthy:
+            continue            # nothing collapsed: the empty result is handed on
+        n_pass += 1
+        ok_ = False
+        for c in conds:
+            tt, tr = c[0], c[1]
+            while tt[0] == 'not':
+                tt, tr = tt[1], not tr
+            if tt[0] == 'call' and T.show(tt[1]) == 'all' and tr is True and len(tt[2]) == 1 and tt[2][0][0] in ('genexp', 'listcomp'):
+                g = tt[2][0]
+                elt_ok = len(g[1]) == 1 and g[1][0][0] == 'call' and g[1][0][1][0] == 'attr' and g[1][0][1][2] == 'startswith' and g[1][0][2] == (('const', 'Collapse'),)
+                it = g[2][0][1] if g[2] else None
+                it_ok = it is not None and it[0] == 'call' and it[1][0] == 'attr' and it[1][2] == 'split' and it[2] == (('const', '; '),) and \
+                    any(isinstance(x, tuple) and x and x[0] == 'call' and x[1] == ('attr', S, 'Terminated') and ('info', ('const', True)) in x[3] for x in T.subterms(it[1][1]))
+                ok_ = ok_ or (elt_ok and it_ok)
+        if not ok_:
+            bad = (p, 'collapses are handed on without the test that every part of the stop message (Terminated(info=True) split on "; ") is a Collapse* condition')
+    ctx.need(n_pass >= 1, '__get_collapses: no path hands collapses on')
+    ctx.check(bad is None, '__get_collapses#only-collapse-stops', 'collapses are applied only when the whole stop message is made of Collapse* conditions (%d paths)' % n_pass,
+              '__get_collapses: %s (path %s)' % (bad[1] if bad else '', bad[0].describe(5) if bad else ''), f, bad[0].exit_node if bad and bad[0].exit_node is not None else f.node)
